@@ -43,6 +43,19 @@ theorem rfcIns_get : ∀ i : Fin 24, rfcInsTable[i.val]? = some (kInsBase.getD i
 theorem rfcCopy_get : ∀ i : Fin 24, rfcCopyTable[i.val]? = some (kCopyBase.getD i.val 0, kCopyExtra.getD i.val 0) := by
   decide
 
+/-- `StoreCommandExtra` once its four table reads succeed -/
+theorem storeCommandExtraM_eq (c : Cmd) (w : Writer) (ie ib cb ce : Nat)
+    (h1 : getAt kInsExtra (getInsertLengthCode c.insertLen) = .ok ie)
+    (h2 : getAt kInsBase (getInsertLengthCode c.insertLen) = .ok ib)
+    (h3 : getAt kCopyBase (getCopyLengthCode (copyLenCode c.copyLenField)) = .ok cb)
+    (h4 : getAt kCopyExtra (getCopyLengthCode (copyLenCode c.copyLenField)) = .ok ce) :
+    storeCommandExtraM c w = writeBits ((ie + ce) % 256)
+      ((((copyLenCode c.copyLenField + two32 - cb) % two32) * 2 ^ ie) % two64 |||
+        ((c.insertLen + two32 - ib) % two32)) w := by
+  unfold storeCommandExtraM
+  simp only [h1, h2, h3, h4]
+  rw [Out.bind_ok, Out.bind_ok, Out.bind_ok, Out.bind_ok]
+
 /-- facts about one well-formed command: symbol, tables, extra bits -/
 theorem cmd_facts (A np nd : Nat) (c : Cmd) (h : cmdOK A np nd c = true) :
     ∃ ic cc ib ie cb ce : Nat,
@@ -77,14 +90,21 @@ theorem cmd_facts (A np nd : Nat) (c : Cmd) (h : cmdOK A np nd c = true) :
   refine ⟨ic, cc, ib, ie, cb, ce, by rw [hpre']; exact s1, by rw [hpre', s2], by rw [hpre', s2], hie, hce,
     i2, by omega, c2, by omega, ?_⟩
   intro w
-  simp only [storeCommandExtraM, hclc, hic, hcc]
   have l1 : kInsExtra.length = 24 := by decide
   have l2 : kInsBase.length = 24 := by decide
   have l3 : kCopyBase.length = 24 := by decide
   have l4 : kCopyExtra.length = 24 := by decide
-  rw [getAt_getD kInsExtra ic (by omega), getAt_getD kInsBase ic (by omega),
-    getAt_getD kCopyBase cc (by omega), getAt_getD kCopyExtra cc (by omega)]
-  simp only [Out.bind_ok, hIB, hIE, hCB, hCE]
+  have g1 := getAt_getD kInsExtra ic (by omega)
+  have g2 := getAt_getD kInsBase ic (by omega)
+  have g3 := getAt_getD kCopyBase cc (by omega)
+  have g4 := getAt_getD kCopyExtra cc (by omega)
+  rw [hIE] at g1
+  rw [hIB] at g2
+  rw [hCB] at g3
+  rw [hCE] at g4
+  rw [← hic] at g1 g2
+  rw [← hcc, ← hclc] at g3 g4
+  rw [storeCommandExtraM_eq c w ie ib cb ce g1 g2 g3 g4, hclc]
   have e1 : (c.insertLen + two32 - ib) % two32 = c.insertLen - ib := by
     unfold two32
     have : c.insertLen + 4294967296 - ib = (c.insertLen - ib) + 4294967296 := by omega
